@@ -95,3 +95,34 @@ backends = [ {{ address = "127.0.0.1:9001" }} ]
     }
 }
 
+/// P2: a certificate file that is not a certificate is only looked at by
+/// ConfigState::add_certificate (fingerprint), not by the loader.
+#[test]
+fn p2_frontend_with_unparsable_certificate() {
+    let dir = temp_dir("p2_assets");
+    let bogus = dir.join("bogus.pem");
+    fs::write(&bogus, "this is not a certificate\n").unwrap();
+    let toml = format!(
+        r#"
+command_socket = "/tmp/sozu_probe.sock"
+worker_count = 1
+
+[[listeners]]
+protocol = "https"
+address = "127.0.0.1:8443"
+
+[clusters.web]
+protocol = "http"
+frontends = [ {{ address = "127.0.0.1:8443", hostname = "example.com", certificate = "{}", key = "{KEY}" }} ]
+backends = [ {{ address = "127.0.0.1:9001" }} ]
+"#,
+        bogus.display()
+    );
+    let result = rejected_or_fully_applied(&toml, "p2");
+    assert!(
+        result.is_ok(),
+        "unparsable certificate: accepted at load time, refused by a fresh state: {:#?}",
+        result.err()
+    );
+}
+
